@@ -248,7 +248,10 @@ class BoolClient(Client):
         if n is not None:
             if n.startswith('self.') and n not in self.tracked and self.class_dict(n[5:]) is not None:
                 return tuple(sorted(self.class_dict(n[5:]), key=str))     # membership tests see the keys
-            return self.get(state, n)
+            v_ = self.get(state, n)
+            if isinstance(v_, tuple) and len(v_) == 2 and v_[0] == '$ALIAS':
+                return self.get(state, v_[1])
+            return v_
         if isinstance(e, ast.Subscript) and attr_chain(e.value) and attr_chain(e.value)[0] == 'self' and len(attr_chain(e.value)) == 2:
             d = self.class_dict(attr_chain(e.value)[1])
             k = self.value(e.slice, state)
@@ -272,8 +275,24 @@ class BoolClient(Client):
             fn = call.func
             if isinstance(fn, ast.Attribute) and fn.attr in self.KEEP_METHODS and call.args:
                 ch = attr_chain(fn.value)
+                if ch and len(ch) == 1:
+                    # a local bound to one of the decoder's buffers (``sink = self.a or self.b``)
+                    al = self.get(state, ch[0])
+                    if isinstance(al, tuple) and len(al) == 2 and al[0] == '$ALIAS' and al[1].startswith('self.'):
+                        ch = ('self', al[1][5:])
                 if ch and ch[0] == 'self' and len(ch) == 2 and any(self.value(a, state) == FRAG for a in call.args):
                     state = self.put(state, '$kept:' + ch[1], True)
+        if isinstance(node, ast.Assign) and len(node.targets) == 1 and isinstance(node.value, ast.Call):
+            tch = attr_chain(node.targets[0])
+            if tch and tch[0] == 'self' and len(tch) == 2 and any(self.value(a, state) == FRAG for a in node.value.args):
+                from ..pitfalls import _stream_ctor_with_content
+                fname = ast.unparse(node.value.func)
+                if _stream_ctor_with_content(node.value, None):
+                    # an in-memory stream created over the fragment (how it is written to afterwards is D9's business)
+                    state = self.put(state, '$kept:' + tch[1], True)
+                elif any(attr_chain(a) == tch for a in node.value.args) and fname.split('.')[-1] not in ('len', 'min', 'max', 'isinstance'):
+                    # ``self.buf = collect(self.buf, fragment)``: the buffer and the fragment go in, the buffer comes back
+                    state = self.put(state, '$kept:' + tch[1], True)
         return state
 
     def stmt(self, st, state):
@@ -302,8 +321,25 @@ class BoolClient(Client):
             for s2, rv in self.enter(hit[0], hit[1], state):
                 outs.append(self.put(s2, n0, rv if isinstance(rv, bool) else U) if n0 else s2)
             return outs
+        if isinstance(st, ast.Assign) and len(st.targets) == 1 and isinstance(st.targets[0], ast.Name) \
+                and isinstance(st.value, ast.BoolOp) and isinstance(st.value.op, ast.Or) \
+                and all(self.name_of(v_) is not None for v_ in st.value.values):
+            # ``sink = self.a or self.b``: the local stands for the first operand that is true (the last one otherwise)
+            tgt = st.targets[0].id
+            names = [self.name_of(v_) for v_ in st.value.values]
+
+            def pick(i, stt):
+                if i == len(names) - 1:
+                    return [self.put(stt, tgt, ('$ALIAS', names[i]))]
+                v_ = self.get(stt, names[i])
+                if v_ is U:
+                    return [self.put(self.put(stt, names[i], True), tgt, ('$ALIAS', names[i]))] + pick(i + 1, self.put(stt, names[i], False))
+                return [self.put(stt, tgt, ('$ALIAS', names[i]))] if v_ else pick(i + 1, stt)
+            return pick(0, state)
         if isinstance(st, ast.Assign) and len(st.targets) == 1:
             n = self.name_of(st.targets[0])
+            if n is not None and n.startswith('self.') and n not in self.tracked and self.get(state, n) is not U:
+                return [self.put(state, n, U)]        # a refinement made by a test does not outlive a new binding
             if n is not None and (n in self.tracked or isinstance(st.targets[0], ast.Name)):
                 v = self.value(st.value, state)
                 if isinstance(v, (bool, int, tuple, frozenset)) and v is not U:
@@ -346,6 +382,8 @@ class BoolClient(Client):
         n = self.name_of(test)
         if n is not None:
             v = self.get(state, n)
+            if isinstance(v, tuple) and len(v) == 2 and v[0] == '$ALIAS':
+                v = self.get(state, v[1])
             return bool(v) if v is not U else None
         if isinstance(test, ast.Compare) and len(test.ops) == 1:
             l = self.value(test.left, state)
@@ -438,6 +476,12 @@ def run(repo, rep):
     p8 = [x for hf in repo.helper_closure(proc) for x in mutated_while_iterated(hf)]
     rep.check(not p8, 'C07.D8', 'fsm:DIMSEDecoder.process:visits-every-pdv', proc.loc(), 'the PDV list is not mutated while iterated',
               '; '.join(p8))
+    rep.rule('C07.D9', 'an in-memory stream that collects fragments is never written at offset 0 over content it was created with: '
+             '``BytesIO(first)`` starts at 0, so it is moved to its end (``seek(0, 2)``) before the next write, or created empty', 1)
+    from ..pitfalls import stream_overwrite_problems
+    p9, n9 = stream_overwrite_problems(repo, list(dec.methods.values()) + [f_ for f_ in repo.all_functions() if f_.module.name == 'dsutils'])
+    rep.check(not p9, 'C07.D9', 'fsm:DIMSEDecoder:collecting-streams', dec.loc(),
+              '%d stream(s) created over content in the reassembler and dsutils; none is written to afterwards at offset 0' % n9, '; '.join(p9))
     try:
         loop, item = process_loop(proc)
     except AnalysisError:
@@ -498,7 +542,8 @@ def run(repo, rep):
     p1 = []
     cmd_buf = None
     # the buffer whose joined content is decoded as the command set -- by provenance, so that it may pass through locals
-    cb = SymClient(repo, proc, event_of=lambda call, callee, *_: 'dsdecode' if callee == 'dsutils.decode' else None,
+    cb = SymClient(repo, proc, event_of=lambda call, callee, *_: 'dsdecode' if callee == 'dsutils.decode' or
+                   callee.rsplit('.', 1)[-1] == 'read_dataset' else None,
                    hierarchy=hier, inline=repo.is_helper)
     cb.run(empty_state())
     for e_, _s in cb.log:
@@ -513,6 +558,7 @@ def run(repo, rep):
                     cmd_buf = ch[1]
     if cmd_buf is None:
         raise AnalysisError('%s: the buffer the command set is decoded from was not found' % proc.loc())
+    data_bufs = set()       # where data fragments are kept in memory (whatever the attribute is called, list or stream)
     for marker in (0, 1, 2, 3):
         pre = frozenset([('self.command_set_received', False), ('self.data_set_received', False), ('self.receiving', True),
                          ('$marker', marker), ('$no_ds', False)])
@@ -526,6 +572,8 @@ def run(repo, rep):
                 p1.append('a command fragment (header %d) is kept in %s, not in the command buffer %s' % (marker, kept or 'nothing', cmd_buf))
             if marker in DATA_FLAGS and (not kept or cmd_buf in kept):
                 p1.append('a data set fragment (header %d) is kept in %s' % (marker, kept or 'nothing'))
+            if marker in DATA_FLAGS:
+                data_bufs.update(k_ for k_ in kept if k_ not in (cmd_buf, '_dataset_fp'))
     # a header outside 0..3 must raise
     for marker in (4, 5, 7, 8, 16, 128, 255):
         pre = frozenset([('self.command_set_received', False), ('self.data_set_received', False), ('self.receiving', True),
@@ -767,7 +815,7 @@ def run(repo, rep):
         last = callee.rsplit('.', 1)[-1]
         if last in ('get_file_cb', 'seek', 'writelines', 'write', 'close'):
             return last
-        if last == 'append' and callee.endswith('_encoded_data_set.append'):
+        if last == 'append' and any(callee.endswith('%s.append' % b_) for b_ in data_bufs | {'_encoded_data_set'}):
             return 'keep'
         return None
     c = SymClient(repo, proc, event_of=ev6, hierarchy=hier)
@@ -782,8 +830,13 @@ def run(repo, rep):
     seeks = [(e, s) for e, s in c.log if e.kind == 'seek']
     if not any(e.args and '[1]' in e.args[0] and 'get_file_cb' in e.args[0] for e, s in seeks):
         p6.append('the file is not rewound to the start position returned by the callback')
-    wl = [(e, s) for e, s in c.log if e.kind == 'writelines']
-    if not any(e.args == ('self._encoded_data_set',) for e, s in wl):
+    # early fragments: everything kept in memory so far goes to the file -- the list written line by line, or its content as one
+    # bytes object (joined, or the value of the in-memory stream it is collected in)
+    mem = sorted(data_bufs | {'_encoded_data_set'})
+    flushed = any(e.kind == 'writelines' and e.args in [('self.%s' % b_,) for b_ in mem] for e, s in c.log) or \
+        any(e.kind == 'write' and e.args and e.args[0] in [f_ % b_ for b_ in mem for f_ in ("b''.join(self.%s)", 'self.%s.getvalue()')]
+            and ('get_file_cb' in e.callee or e.callee == 'self._dataset_fp.write') for e, s in c.log)
+    if not flushed:
         p6.append('data fragments received before the file exists are not flushed to it')
     # the file is opened inside the loop (on the last command fragment), so whether a data fragment goes to the
     # file or to memory must be decided at that fragment, not before the loop
@@ -794,7 +847,8 @@ def run(repo, rep):
             entry_conds |= set(s_.conds)
     lo = loop_body_outcomes(c, loop)
     for st_ in list(lo.fall) + list(lo.cont) + list(lo.brk):
-        stores = [e_ for e_ in st_.trail if e_.kind in ('write', 'keep') and e_.args and 'data_value[1:]' in e_.args[0]]
+        stores = [e_ for e_ in st_.trail if e_.kind in ('write', 'keep') and e_.args and 'data_value[1:]' in e_.args[0]
+                  and not e_.callee.startswith('self.%s.' % cmd_buf)]
         if not stores:
             continue
         decided = [cn for cn in stores[0].conds if '_dataset_fp' in cn and cn not in entry_conds]
